@@ -451,7 +451,7 @@ func shortOf(pkg string) string {
 func orderShapeToAST(shape []orderPkg) schemaBundle {
 	nm := func(src string, w ...string) schemaName { return schemaName{W: w, Sp: "x", Src: src} }
 	var b schemaBundle
-	for _, p := range shape {
+	for pi, p := range shape {
 		sp := schemaPkg{Name: p.Name}
 		for fi, f := range p.Files {
 			sf := schemaFile{Name: f.Name}
@@ -465,6 +465,9 @@ func orderShapeToAST(shape []orderPkg) schemaBundle {
 						sf.Imports = append(sf.Imports, schemaImport{Pkg: r[0], Form: "pkg"})
 					}
 					t.Qual = r[0]
+					if len(r) > 2 && r[2] == "short" {
+						t.Qual = shortOf(r[0]) // written through the package's short name
+					}
 				}
 				refFields = append(refFields, schemaField{Name: nm(fmt.Sprintf("ref%c", 'A'+i)), Type: t, Pres: "none", PresForm: "mark"})
 			}
@@ -472,10 +475,17 @@ func orderShapeToAST(shape []orderPkg) schemaBundle {
 				obj := schemaDecl{Kind: "object", Name: nm(d)}
 				obj.Fields = append(obj.Fields,
 					schemaField{Name: nm("objId"), Type: schemaType{K: "scalar", S: "key:id62"}, Pres: "req", PresForm: "mark"},
-					schemaField{Name: nm("kind"), Type: schemaType{K: "inline", Ik: "enum", Options: []string{"A", "B"}}, Pres: "none", PresForm: "mark"},
+					schemaField{Name: nm("kind"), Type: schemaType{K: "inline", Ik: "enum", Options: []string{"A", "B"}, Info: []string{"delta", "alpha", "gamma", "beta", "epsilon"}}, Pres: "none", PresForm: "mark"},
 					schemaField{Name: nm("tags"), Type: schemaType{K: "map", Item: &schemaType{K: "scalar", S: "string"}}, Pres: "none", PresForm: "mark"},
 					schemaField{Name: nm("when"), Type: schemaType{K: "scalar", S: "timestamp"}, Pres: "opt", PresForm: "mark"},
 				)
+				// a rules block without `required` in the even packages and with it in the odd ones: the compiled
+				// constraints of a field must not depend on what the process converted before it (shared option messages)
+				if pi%2 == 0 {
+					obj.Fields = append(obj.Fields, schemaField{Name: nm("seenAt"), Type: schemaType{K: "scalar", S: "timestamp"}, Pres: "none", PresForm: "mark", Attrs: []string{"rules.exclusiveMinimum = true"}})
+				} else {
+					obj.Fields = append(obj.Fields, schemaField{Name: nm("madeAt"), Type: schemaType{K: "scalar", S: "timestamp"}, Pres: "req", PresForm: "mark", Attrs: []string{"rules.exclusiveMinimum = true"}})
+				}
 				if di == 0 {
 					obj.Fields = append(obj.Fields, refFields...)
 				}
